@@ -31,7 +31,7 @@ PROP = dict(
     thorough=dict(configs=['asan', 'rel', 'native'], cases=15000000, maxlen=240,
                   fuzz_s=120, setmax=1 << 23),
     case_timeout=30,
-    required_classes=[
+    required_classes=['arr.n>20000', 
         'for.decode', 'for.batchdecode', 'for.decodeblock', 'group.decode',
         'dict.decodeinto', 'rle.decode', 'rle.decodewithheader',
         'elias.gamma', 'elias.delta', 'bp128.decode32', 'bp128.decode64',
